@@ -150,11 +150,11 @@ class SeismicFileConverter(object):
                 self.geom = None
         else:
             if seismic.ilines is not None and len(seismic.ilines) == 1:
-                # We have a 2D SEG-Y
-                self.geom = Geometry2d(seismic.xlines)
+                # We have a 2D SEG-Y (every trace of the file, also when segyio counts several offsets per position)
+                self.geom = Geometry2d(seismic.tracecount)
             elif seismic.xlines is not None and len(seismic.xlines) == 1:
                 # We have a 2D SEG-Y
-                self.geom = Geometry2d(seismic.ilines)
+                self.geom = Geometry2d(seismic.tracecount)
             else:
                 # We have a regular 3D SEG-Y
                 self.geom = Geometry3d(0, len(seismic.ilines), 0, len(seismic.xlines))
